@@ -12,6 +12,7 @@ open Scc.Generated
 /-- reviewed sites, each with the reason why the iteration order cannot reach the output -/
 def hashWhitelist : List Nat := [
   799562813  /- lang/fun2core/src/compile.rs|free_vars.iter|1 : BTreeSet (ordered), and only `.any(..)` is taken: order-insensitive -/,
+  3365090722  /- lang/core2axcut/src/statements/cut.rs|used_labels.iter|1 : HashSet of labels, only `.any(..)` is taken (collision test of the lift-label fix D9a): order-insensitive -/,
   2537966271  /- lang/axcut/src/syntax/program.rs|defs.iter|1 : Vec: ordered -/,
   2865432503  /- lang/axcut/src/syntax/program.rs|types.iter|1 : Vec: ordered -/,
   733848249  /- lang/axcut/src/syntax/statements/create.rs|extend(vars_clauses)|1 : HashSet into HashSet: set union -/,
